@@ -8,6 +8,9 @@ import (
 
 // DecodeUserDataRegisteredSEI decodes a SEI message of type 4.
 func DecodeUserDataRegisteredSEI(sd *SEIData) (SEIMessage, error) {
+	if len(sd.payload) < 8 {
+		return nil, fmt.Errorf("user_data_registered_itu_t_t35 payload too short: %d bytes", len(sd.payload))
+	}
 	itutData := ITUData{
 		CountryCode:      sd.payload[0],
 		ProviderCode:     binary.BigEndian.Uint16(sd.payload[1:3]),
